@@ -3,6 +3,7 @@ package checks
 import (
 	"bytes"
 	"fmt"
+	"os"
 	"sort"
 	"time"
 
@@ -118,6 +119,7 @@ func hookRun(sc *hookScenario) (finds []hookFinding, undefined bool, slow bool) 
 			}
 		}
 	}
+	nreads := 0
 	for _, op := range sc.Ops {
 		if op.AgeMs != 0 {
 			vp.Age(time.Duration(op.AgeMs) * time.Millisecond)
@@ -238,12 +240,18 @@ func hookRun(sc *hookScenario) (finds []hookFinding, undefined bool, slow bool) 
 				}
 			}
 		}
-		checkStable("after a later read")
+		// (with hundreds of delivered messages the re-check after EVERY read is quadratic: every 32nd read then)
+		if nreads++; len(snaps) <= 64 || nreads%32 == 0 {
+			checkStable("after a later read")
+		}
 	}
 	vp.Clear()
 	checkStable("after the connection ended")
 	el := time.Since(t0)
 	slow = el > 250*time.Millisecond
+	if os.Getenv("VERIF_DEBUG") != "" && slow {
+		fmt.Fprintf(os.Stderr, "hook slow %v %s finds=%v\n", el, sc.Gen, finds)
+	}
 	return
 }
 
@@ -271,8 +279,10 @@ func hookEval(c *core.Collector, sc *hookScenario, cats map[string]bool, nontriv
 	}
 	if slow && len(sc.Ops) > 0 && hasAge(sc) {
 		// real time leaked into a virtual-time scenario: retry once, otherwise inconclusive
+		t1 := time.Now()
 		finds, undef, slow = hookRun(sc)
 		if slow {
+			c.Count("virtual_time_scenarios_too_slow_ms_total", time.Since(t1).Milliseconds())
 			c.Inconclusive()
 			return
 		}
